@@ -25,7 +25,9 @@ RULE = ("table cases: all (residue, atom) entries of the six built-in force fiel
         ' Round-2 additions: long stretches (30-400 residues) of the local real proteins; pKa route with a stubbed pKa source (titrated states); names-history tables (one process, the same bundled DAT under plain / user names / plain again, each compared with its own model).')
 ASSUMPTIONS = ["chain ends and input residue names are the generator's ground truth",
                "the .names rules are the ones documented in docs/source/formats/xml-names.rst as implemented by "
-               "vf.ref.ffmap (regex on canonical names with $ appended, $group, cumulative sections, atom aliases)"]
+               "vf.ref.ffmap (regex on canonical names with $ appended, $group, cumulative sections, atom aliases)",
+               "a (residue, atom) pair listed more than once in a .DAT file has the values of its last line (the table is "
+               "read top to bottom; dat.rst is silent, appended override blocks rely on it)"]
 MIN = {"quick": {"table_entries": 17000, "lookup_events": 20000, "atoms_checked": 20000, "user_ff_runs": 10,
                  "runs_ok": 150, "names_history_tables": 25, "pka_route_runs": 10},
        "thorough": {"table_entries": 100000, "lookup_events": 800000, "atoms_checked": 800000, "user_ff_runs": 200,
